@@ -57,8 +57,9 @@ def base_case(rng, cell, mode):
         if eu == 2 and pt == 5:
             # the chiller's capital share is only added when the plant cost is correlated; with a fixed plant cost only
             # its O&M remains a separate stream
-            gen.cset(c, 'Absorption Chiller Capital Cost', gen._round(rng.uniform(0.5, 10), 4))
-            gen.cset(c, 'Absorption Chiller O&M Cost', gen._round(rng.uniform(0.05, 1), 4))
+            # (a third of the figures equal the parameter's declared default, 5 and 1, or half of it so that x 2 lands on it)
+            gen.cset(c, 'Absorption Chiller Capital Cost', rng.choice([5, 2.5, gen._round(rng.uniform(0.5, 10), 4), gen._round(rng.uniform(0.5, 10), 4)]))
+            gen.cset(c, 'Absorption Chiller O&M Cost', rng.choice([1, 0.5, gen._round(rng.uniform(0.05, 1), 4), gen._round(rng.uniform(0.05, 1), 4)]))
         if eu == 2 and pt == 7:
             gen.cdel(c, 'District Heating Road Length')
             gen.cdel(c, 'District Heating Network Piping Length')
